@@ -67,10 +67,10 @@ def check_decoder_copies(ctx, fx):
                 v = X.const_val(r0)
                 # which cursor byte do the facts talk about: `*p` or a local copy `c` of it
                 # a local copy `c` of the cursor byte counts only while `c == *p` is still known (the cursor has not moved)
-                names = {"+*p"}
+                names = {"+p[0]"}
                 for (op, ts, c) in fs:
-                    if op == "eq" and c == 0 and len(ts) == 2 and "-*p" in ts:
-                        names.add([t for t in ts if t != "-*p"][0])
+                    if op == "eq" and c == 0 and len(ts) == 2 and "-p[0]" in ts:
+                        names.add([t for t in ts if t != "-p[0]"][0])
                 known_eq = {-c for (op, ts, c) in fs if op == "eq" and len(ts) == 1 and ts[0] in names}
                 known_ne = {-c for (op, ts, c) in fs if op == "ne" and len(ts) == 1 and ts[0] in names}
                 if v is not None:
